@@ -38,7 +38,7 @@ var Prop = &engine.Prop{
 		"epochs from 2000-01-01 up to 2200 (later epochs would need 5-digit years in the date form or overflow UseEpoch's own nanosecond arithmetic)",
 		"range clause: only non-negative ids are probed; ids whose timestamp lies strictly inside the last endpoint's second (after its first millisecond) are not judged",
 	},
-	ShardsQuick: 4, ShardsThorough: 240,
+	ShardsQuick: 4, ShardsThorough: 16,
 	Kinds: []engine.Kind{
 		{Name: "fields", Quick: 2000, Thorough: 600000, Fn: fieldsCase},
 		{Name: "order", Quick: 800, Thorough: 240000, Fn: orderCase},
